@@ -4,7 +4,7 @@ import ast
 
 from ..program import AnalysisError, walk_local, dotted
 from ..analysis import Spec, src
-from ..rules import (guard_paths, literal_text, GWF, EXC, mpt, need_func, stores_to, is_const,
+from ..rules import (substitute_locals, guard_paths, literal_text, GWF, EXC, mpt, need_func, stores_to, is_const,
                      parent_map, raise_class)
 from . import common
 from .c12 import _first_exit
@@ -46,9 +46,16 @@ def dedupe_pending_only(prog, an, rep):
         isinstance(x, ast.Call) and src(x.func) == 'self.task_queue.put'
         for x in ast.walk(n.ast))]
     rep.floor('C13 task_queue.put sites in put_job', len(puts), 1)
-    tests = [n for n in c.nodes.values() if n.kind == 'test']
+    import copy as _copy
+    tests = []
+    for n in c.nodes.values():
+        if n.kind == 'test':
+            n2 = _copy.copy(n)
+            # a flag that caches the membership test is that test
+            n2.matched = substitute_locals(f, n.ast)
+            tests.append(n2)
     rep.evaluated()
-    ok = len(tests) == 1 and isinstance(tests[0].ast, ast.Compare) and \
+    ok = len(tests) == 1 and isinstance(tests[0].matched, ast.Compare) and \
         len(tests[0].matched.ops) == 1 and \
         isinstance(tests[0].matched.ops[0], (ast.NotIn, ast.In)) and \
         src(tests[0].matched.left) == f.params[1] and \
